@@ -169,6 +169,8 @@ def ev(e, env):
         return ev(e[1], env)
     if t == 'uvar':
         return qast.UVARS[e[1]]
+    if t == 'uattr':
+        return qast.UATTRS[e[1]]
     if t == 'floordiv':
         x, y = _num(ev(e[1], env), 'arith'), _num(ev(e[2], env), 'arith')
         if y == 0:
